@@ -4,6 +4,8 @@ import driver
 
 def run(ctx):
     H = driver.Harness
-    hs = [H('VerifC14', 'pkg/utils', {'pkg/utils/zz_verif_c14.go': 'c14/zz_verif_c14.go'}, unwind=12)]
+    params = {'groupslen': 4, 'adminlen': 4} if ctx.tier == 'quick' else {'groupslen': 5, 'adminlen': 5}
+    hs = [H('VerifC14', 'pkg/utils', {'pkg/utils/zz_verif_c14.go': 'c14/zz_verif_c14.go'}, unwind=params['groupslen'] + params['adminlen'] + 4,
+            opts={'params': params}, timeout_ms=60000 if ctx.tier == 'quick' else 900000)]
     driver.check_harnesses(ctx, hs)
-    driver.write_evidence(ctx, 'model_checking', 'bounded symbolic execution of the real TemporaryEvaluate', {}, [])
+    driver.write_evidence(ctx, 'model_checking', 'bounded symbolic execution of the real TemporaryEvaluate', {'params': params}, [])
